@@ -348,10 +348,12 @@ Definition fstep (k : nat) (fs : fstate) (c : nat) : fstate :=
              r.1.1 (rcons (f_out fs) r.1.2)
   end.
 
-Definition fb_run_state : fstate :=
-  let k := isqrt n in
+(* the whole run with the backward projection columns check-pointed every k-th column *)
+Definition fb_run_state_k (k : nat) : fstate :=
   let st0 := BState (nseq n None) (nseq n (fsub f0 f1)) false in
   foldl (fstep k) (FState (bpass k st0) (fun _ _ => f1) [::]) (iota 0 n).
+(* GenotypeDPTable uses k = (size_t) sqrt(number of columns) *)
+Definition fb_run_state : fstate := fb_run_state_k (isqrt n).
 
 End Passes.
 
@@ -362,6 +364,15 @@ Definition fb_run (I : inst) : option (seq (seq (seq F))) :=
   let genof := geno_memo P in
   let ccs := mk_cctxs P (h2p_memo P) genof (gcount_memo P) [::] (i_cols I) in
   let fs := fb_run_state P genof ccs in
+  if err (f_b fs) then None else Some (f_out fs).
+
+(* the same run with an arbitrary check-pointing stride (specification side: the result does not
+   depend on it) *)
+Definition fb_run_k (k : nat) (I : inst) : option (seq (seq (seq F))) :=
+  let P := i_ped I in
+  let genof := geno_memo P in
+  let ccs := mk_cctxs P (h2p_memo P) genof (gcount_memo P) [::] (i_cols I) in
+  let fs := fb_run_state_k P genof ccs k in
   if err (f_b fs) then None else Some (f_out fs).
 
 Definition fb_likelihood (I : inst) (c ind g : nat) : F :=
